@@ -401,3 +401,217 @@ def judge(rules, req, ob):
 
 def req_key(r):
     return '%s %s:%s from %s' % (r['method'], r['host'], r['port'], r['src'])
+
+
+# ------------------------------------------------------------------ sweep
+
+ASSUME = ['the real squid binary (ASan build of the current tree) runs under the lock-step/virtual-time shim; clients (bound to '
+          '127.0.0.1 / 127.0.0.2) and the six origin listeners (127.0.0.3-5 x 2 ports) are played by the driver',
+          'configurations after the first of an instance are loaded with SIGHUP (squid -k reconfigure path: the real parser builds '
+          'the access list again); per shard some configurations are also started on a fresh instance and must give the same transcript',
+          'the 36 requests of a configuration are in flight together; every reported violation is reproduced alone on a fresh instance',
+          'host names resolve through hosts_file; unresolvable destinations, IPv6, deny_info, authentication and external ACLs are outside the bound']
+RULE = ('a configuration is non-trivial when, by observation, at least one request of the universe was forwarded and at least one was '
+        'denied under it (the rule list discriminates inside the universe); evaluations counts (configuration, request) executions')
+RESTART_EVERY = 300
+MAX_VIOLATIONS_PER_SHARD = 5
+
+
+def transcript_of(obs):
+    return [(o['status'], o['err'], len(o['arrivals'])) for o in obs]
+
+
+def eval_config(w, rules):
+    """Run the whole universe under the loaded configuration; returns (transcript, [(req, text)], per-request classes)."""
+    obs = w.run_requests(UNIVERSE)
+    bad = []
+    classes = []
+    for r, ob in zip(UNIVERSE, obs):
+        cls, v = judge(rules, r, ob)
+        classes.append(cls)
+        if v:
+            bad.append((r, v))
+    return transcript_of(obs), bad, classes
+
+
+def confirm(ctx, shard, rules, req):
+    """Re-run one request alone on a fresh instance started with that configuration (= what replay does)."""
+    w = CWorld(ctx, shard, name='c%d' % shard)
+    try:
+        w.start(rules)
+        ob = w.run_requests([req])[0]
+        cls, v = judge(rules, req, ob)
+        probs = w.problems()
+        return v, ob, probs
+    finally:
+        w.stop()
+
+
+def make_worker(ctx, det_n):
+    t_end = ctx.t0 + ctx.deadline_s - 25
+
+    def worker(shard, items):
+        res = {'configs': 0, 'evaluations': 0, 'nontrivial': 0, 'allowed': 0, 'denied': 0, 'violations': [], 'crashes': [],
+               'deadline_hit': False, 'starts': 0, 'reconfigs': 0, 'kicks': 0, 'vectors': set(), 'classes': {}, 'samples': [],
+               'det_checked': 0, 'default_decided': 0, 'dims': {}}
+        # determinism / start-vs-reconfigure obligation: det_n configurations spread over this shard's list are first run on
+        # instances started directly with them
+        det = {}
+        idxs = sorted(set([0] + [(len(items) * k) // det_n for k in range(1, det_n)])) if items else []
+        for i in idxs:
+            w0 = CWorld(ctx, shard, name='d%d' % shard)
+            try:
+                w0.start(items[i][1])
+                det[i] = eval_config(w0, items[i][1])[0]
+                res['kicks'] += w0.sq.kicks
+                res['starts'] += 1
+            finally:
+                w0.stop()
+        w = CWorld(ctx, shard)
+        try:
+            since = 0
+            for n, (cls, rules) in enumerate(items):
+                if time.time() > t_end:
+                    res['deadline_hit'] = True
+                    break
+                if w.sq is None or since >= RESTART_EVERY:
+                    if w.sq is not None:
+                        res['kicks'] += w.sq.kicks
+                    w.start(rules)
+                    since = 0
+                else:
+                    w.reconfigure(rules)
+                since += 1
+                tr, bad, classes = eval_config(w, rules)
+                probs = w.problems()
+                res['configs'] += 1
+                res['evaluations'] += len(UNIVERSE)
+                res['classes'][cls] = res['classes'].get(cls, 0) + 1
+                if n in det:
+                    if det[n] != tr:
+                        raise HarnessError('nondeterminism: configuration [%s] gave different transcripts when started directly and '
+                                           'when loaded by reconfiguration:\n%r\n%r' % (rules_key(rules), det[n], tr))
+                    res['det_checked'] += 1
+                na = sum(1 for t in tr if t[2] > 0)
+                nd = sum(1 for t in tr if t[0] == 403 and t[2] == 0)
+                res['allowed'] += na
+                res['denied'] += nd
+                if na and nd:
+                    res['nontrivial'] += 1
+                res['vectors'].add(''.join('1' if t[2] > 0 else '0' for t in tr))
+                for r, t in zip(UNIVERSE, tr):
+                    for dim in ('src', 'host', 'port', 'method'):
+                        k = '%s=%s:%s' % (dim, r[dim], 'fwd' if t[2] > 0 else 'deny')
+                        res['dims'][k] = res['dims'].get(k, 0) + 1
+                if rules and any(not any(all(lit_match(l, r) for l in lits) for _, lits in rules) for r in UNIVERSE):
+                    res['default_decided'] += 1
+                if len(res['samples']) < 2 and n % 37 == 5:
+                    res['samples'].append({'http_access': rules_key(rules), 'forwarded': na, 'denied_403': nd,
+                                           'forwarded_requests': [req_key(r) for r, t in zip(UNIVERSE, tr) if t[2] > 0][:6]})
+                if probs:
+                    res['crashes'].append((rules_key(rules), '; '.join(probs)[:2500], rules))
+                    w.start(rules)
+                    since = 1
+                for req, text in bad[:2]:
+                    v2, ob2, probs2 = confirm(ctx, shard, rules, req)
+                    res['starts'] += 1
+                    if not v2:
+                        v3, ob3, probs3 = confirm(ctx, shard, rules, req)
+                        res['starts'] += 1
+                        if not v3:
+                            raise HarnessError('violation not reproducible alone on a fresh instance: [%s] %s: %s' % (
+                                rules_key(rules), req_key(req), text))
+                        v2 = v3
+                    res['violations'].append(('[%s] %s' % (rules_key(rules), req_key(req)), v2, {'rules': rules, 'req': req}))
+                if len(res['violations']) >= MAX_VIOLATIONS_PER_SHARD:
+                    res['deadline_hit'] = True
+                    res['stopped_after_violations'] = True
+                    break
+        finally:
+            if w.sq is not None:
+                res['kicks'] += w.sq.kicks
+            res['starts'] += w.starts
+            res['reconfigs'] += w.reconfigs
+            w.stop()
+        res['vectors'] = sorted(res['vectors'])
+        return res
+    return worker
+
+
+def run(ctx):
+    ls.build_squid(ctx)
+    # reference self-test: the evaluator on hand-computed cases from the documentation
+    g = {'src': '127.0.0.1', 'host': 'b.a.test', 'port': 'P2', 'method': 'GET'}
+    assert ref_allowed([], g) is False
+    assert ref_allowed([('deny', ['mC'])], g) is True and ref_allowed([('allow', ['mC'])], g) is False
+    assert ref_allowed([('allow', ['domA', '!p1']), ('deny', ['s1'])], g) is True
+    assert ref_allowed([('deny', ['domAx']), ('deny', ['dB'])], g) is False
+    space = config_space(ctx.tier)
+    det_n = 2 if ctx.quick else 4
+    parts = ls.run_sharded(ctx, make_worker(ctx, det_n), space)
+    parts = [p for p in parts if p]
+    tot = lambda k: sum(p[k] for p in parts)
+    vectors = set()
+    classes, dims = {}, {}
+    for p in parts:
+        vectors.update(p['vectors'])
+        for k, v in p['classes'].items():
+            classes[k] = classes.get(k, 0) + v
+        for k, v in p['dims'].items():
+            dims[k] = dims.get(k, 0) + v
+    vio = []
+    for p in parts:
+        vio += [Violation(k, what, rp) for k, what, rp in p['violations']]
+        vio += [Violation('crash:[%s]' % k, 'squid crashed/asserted while serving the universe under [%s]: %s' % (k, what), {'rules': rules, 'req': None})
+                for k, what, rules in p['crashes']]
+    deadline_hit = any(p['deadline_hit'] for p in parts)
+    configs = tot('configs')
+    if not vio:
+        if tot('allowed') == 0 or tot('denied') == 0 or tot('nontrivial') < configs // 4:
+            raise HarnessError('vacuity guard: forwarded %d, denied %d, discriminating configurations %d of %d' % (
+                tot('allowed'), tot('denied'), tot('nontrivial'), configs))
+        if tot('default_decided') == 0:
+            raise HarnessError('vacuity guard: no configuration in which the implicit default decided a request')
+        want = ['%s=%s:%s' % (d, r[d], o) for r in UNIVERSE for d in ('src', 'host', 'port', 'method') for o in ('fwd', 'deny')]
+        missing = sorted(set(k for k in want if not dims.get(k)))
+        if missing and not deadline_hit:
+            raise HarnessError('vacuity guard: never observed %r' % missing)
+        if tot('det_checked') < len(parts):
+            raise HarnessError('determinism obligation not exercised in every shard')
+    samples = []
+    for p in parts:
+        samples += p['samples'][:1]
+    complete = (not deadline_hit) and configs == len(space)
+    cov = {'evaluations': tot('evaluations'), 'distinct_nontrivial': tot('nontrivial'), 'rule': RULE, 'samples': samples[:6],
+           'exhaustive': complete, 'configurations': configs, 'configurations_total': len(space), 'configuration_classes': classes,
+           'subspace': ('complete: no rule; every single rule with 1 literal (32) and with 2 literals over different ACLs or x !x '
+                        '(%s); every list of 2 single-literal rules (1024)%s; each x all 36 requests' % (
+                            'unordered pairs, 240' if ctx.quick else 'ordered pairs, 480',
+                            '' if ctx.quick else '; every list of 2 rules with 1+2 or 2+1 literals (15360)')),
+           'requests_forwarded': tot('allowed'), 'requests_denied_403': tot('denied'), 'distinct_decision_vectors': len(vectors),
+           'configs_where_implicit_default_decided': tot('default_decided'), 'instance_starts': tot('starts'),
+           'reconfigurations': tot('reconfigs'), 'start_vs_reconfigure_crosschecks': tot('det_checked'), 'kicks': tot('kicks')}
+    return Result(LEVEL, cov, vio, ASSUME)
+
+
+def replay(ctx, data):
+    ls.build_squid(ctx)
+    rules = [(a, list(l)) for a, l in data['rules']]
+    vio = []
+    if data.get('req'):
+        v, ob, probs = confirm(ctx, 0, rules, data['req'])
+        print('[%s] %s -> %r %r' % (rules_key(rules), req_key(data['req']), ob, probs))
+        if v:
+            vio.append(Violation('[%s] %s' % (rules_key(rules), req_key(data['req'])), v, data))
+    else:
+        w = CWorld(ctx, 0)
+        try:
+            w.start(rules)
+            tr, bad, _ = eval_config(w, rules)
+            probs = w.problems()
+            print(tr, probs)
+            if probs:
+                vio.append(Violation('crash:[%s]' % rules_key(rules), '; '.join(probs)[:2500], data))
+        finally:
+            w.stop()
+    return Result(LEVEL, {}, vio, ASSUME)
